@@ -144,6 +144,8 @@ var positions = []position{
 	{ID: "jobs.steps.with.entrypoint", Canon: st + "with.entrypoint", RootFn: "VisitStep", RootArg: "e.Entrypoint", Base: "/bin/sh"},
 	{ID: "jobs.steps.with.args", Canon: st + "with.args", RootFn: "VisitStep", RootArg: "e.Args", Base: "-c true"},
 	{ID: "on.workflow_call.inputs.required", Variant: 2, Canon: "on.workflow_call.inputs.<inputs_id>.required", RootFn: "VisitWorkflowPre", RootArg: "i.Required", RootOcc: 1, Base: "true", MaybeUnrouted: true},
+	// the outputs of a reusable workflow none of whose jobs declares outputs (or is itself a call)
+	{ID: "on.workflow_call.outputs.value-no-job-outputs", Variant: 2, Canon: "on.workflow_call.outputs.<output_id>.value", RootFn: "checkWorkflowCallOutputs", RootArg: "o.Value", Base: "v"},
 	{ID: "on.workflow_call.secrets.required", Variant: 2, Canon: "on.workflow_call.secrets.<secret_id>.required", RootFn: "VisitWorkflowPre", RootArg: "s.Required", Base: "true", MaybeUnrouted: true},
 	{ID: "jobs.strategy.matrix.include-elem-expr", Variant: 2, Canon: jb + "strategy.matrix.include", RootFn: "checkMatrix", RootArg: "combi.Expression", RootOcc: 1, Base: "${{ fromJSON('{}') }}", MaybeUnrouted: true},
 	{ID: "jobs.container.ports-with-volumes", Variant: 2, Canon: jb + "container.ports", RootFn: "VisitJobPre", RootArg: "n.Container", Subs: []string{"c.Ports"}, Base: "80", MaybeUnrouted: true},
